@@ -315,6 +315,8 @@ where
 #[derive(Debug, Default)]
 pub struct DownlinkOperationDecoder;
 
+const MAX_RESERVE: usize = 1 << 16;
+
 impl Decoder for DownlinkOperationDecoder {
     type Item = DownlinkOperation<Bytes>;
 
@@ -322,13 +324,23 @@ impl Decoder for DownlinkOperationDecoder {
 
     fn decode(&mut self, src: &mut bytes::BytesMut) -> Result<Option<Self::Item>, Self::Error> {
         if src.remaining() >= LEN_SIZE {
-            let len = src.as_ref().get_u64() as usize;
-            if src.remaining() >= len + LEN_SIZE {
+            let len = src.as_ref().get_u64();
+            let required = usize::try_from(len)
+                .ok()
+                .and_then(|len| len.checked_add(LEN_SIZE))
+                .ok_or_else(|| {
+                    std::io::Error::new(
+                        std::io::ErrorKind::InvalidData,
+                        format!("Invalid length: {}", len),
+                    )
+                })?;
+            if src.remaining() >= required {
                 src.advance(LEN_SIZE);
-                let body = src.split_to(len).freeze();
+                let body = src.split_to(required - LEN_SIZE).freeze();
                 Ok(Some(DownlinkOperation { body }))
             } else {
-                src.reserve(LEN_SIZE + len);
+                // The length is not trusted: it is only a hint for how much space to make.
+                src.reserve(required.min(MAX_RESERVE));
                 Ok(None)
             }
         } else {
